@@ -42,12 +42,23 @@ package mux
 //@   requires 0 <= shard && shard < len(q.locks)
 //@   modifies q.locks[shard]
 
+// Add: whoever finds the shard empty before appending to it must trigger it (nobody else will: later Adds find it non-empty), whatever
+// the number of getters of the call
+//@ ghost global sqWasEmpty bool
+//@ ghost global sqAppended bool
+//@ ghost global sqTriggered bool
 //@ func (*mux.ShardQueue).Add
 //@   property C17
 //@   requires sqok(q)
+//@   threadlocal !sqWasEmpty && !sqAppended && !sqTriggered
 //@   ensures sqok(q)
 //@   ensures old(q.state) != 0 ==> unchanged(ShardQueue.idx, ShardQueue.getters)
+//@   ensures old(q.state) != 0 ==> !sqAppended && !sqTriggered
+//@   ensures sqAppended && sqWasEmpty ==> sqTriggered
 //@   modifies anything
+//@   ghost before call append#1: sqAppended = true; sqWasEmpty = len(q.getters[shard]) == 0
+//@   ghost before call (*mux.ShardQueue).triggering#1: assert sqAppended
+//@   ghost after call (*mux.ShardQueue).triggering#1: sqTriggered = true
 
 //@ func (*mux.ShardQueue).triggering
 //@   property C17
@@ -95,6 +106,9 @@ package mux
 //@   ghost after call atomic.StoreInt32#1: sqCleared = true
 //@   ghost after call atomic.LoadInt32#2: sqRechecked = sqCleared; sqSeen = result
 //@   ghost before call (*mux.ShardQueue).foreach#1: sqRestarted = sqRechecked
+//@   note Close waits for `closed`: the task may announce it only after its re-check found no pending trigger (otherwise Close returns
+//@   note while a getter added before it is still unhandled)
+//@   ghost before call atomic.CompareAndSwapInt32#1: assert sqRechecked && sqSeen <= 0
 //@   loop 1 invariant sqok(q) && dealn == 0 && !sqCleared && !sqRechecked && !sqRestarted && negNum + sqPending == 0 && negNum <= 0 && (negNum == 0 || triggerNum + negNum > 0)
 
 //@ func (*mux.ShardQueue).Close
